@@ -57,6 +57,10 @@ Integral ==
   /\ IsEvent("Int") /\ cur # NoPt
   /\ Report(Ev, IntClauses(cur, Ev))
   /\ l' = l + 1 /\ UNCHANGED <<cur, reg, pend, prev>>
+(* the scan continues on another grid: the walk (previous point) starts again *)
+Break ==
+  /\ IsEvent("Brk") /\ cur # NoPt
+  /\ prev' = NoPt /\ reg' = "" /\ pend' = NoPt /\ l' = l + 1 /\ UNCHANGED cur
 Bounds ==
   /\ IsEvent("Bnd") /\ cur # NoPt
   /\ Report(Ev, BndClauses(cur, Ev))
@@ -67,7 +71,7 @@ Finish ==
   /\ Report(Ev, Chk("GRAM.dangling-jump", pend = NoPt) \cup Chk("GRAM.incomplete", FinalOK(cur, reg)))
   /\ cur' = NoPt /\ reg' = "" /\ pend' = NoPt /\ prev' = NoPt /\ l' = l + 1
 
-Next == Start \/ Point \/ Jump \/ Integral \/ Bounds \/ Finish
+Next == Start \/ Point \/ Jump \/ Integral \/ Bounds \/ Break \/ Finish
 Spec == Init /\ [][Next]_vars
 
 (* the whole trace was consumed: one state per event plus the initial state *)
